@@ -118,7 +118,7 @@ def monitor_validate(ctx, infile, implfile):
         for li, lo in zip(fi, fo):
             if not li.startswith("cval "):
                 continue
-            cfg = ck.Cfg(li.split()[1:12])
+            cfg = ck.Cfg(li.split()[1:1 + ck.NCFG])
             o = lo.split()
             if o[0] == "V" and o[1] == "K" and not cfg.secure:
                 n += 1
@@ -134,7 +134,7 @@ def monitor_validate(ctx, infile, implfile):
 
 def run(ctx):
     pre = ctx.path("cookies")
-    out, dt = vf.run_driver(["cookies", "-out", pre, "-seed", str(ctx.seed), "-tier", ctx.tier])
+    out, dt = vf.run_driver(["cookies", "-out", pre, "-seed", str(ctx.seed), "-tier", ctx.tier] + ck.driver_flags())
     ctx.timings["cookies"] = round(dt, 2)
     ctx.extra["driver_counts"] = [l for l in out.split("\n") if l.startswith("cookies: ")]
     ctx.correspondence("cookies: url.ParseRequestURI/ParseIngress, Cookie.Validate, MatchingPath, Set-Cookie headers of the real router "
@@ -156,6 +156,7 @@ def run(ctx):
                 "cookie jar: exhaustive single Set-Cookie over hosts x domains x paths x secure + random sequences with expiry; "
                 "distinct_nontrivial counts distinct (cookie kind, set/clear, scope, attributes, mode, endpoint, status) signatures")
     ctx.assumptions += [
+        "code variant followed by the model: lib/code_flags.json ingress_segment_prefix (passed to the driver as -seg-prefix and to the model with every configuration)",
         "net/url is modelled for ASCII strings without '%', '[', ']', '@' (no escapes, IPv6 literals, userinfo); other ingress strings are classified 'unmodelled'",
         "cookie names are derived as in cmd/wonderwall/main.go:run (these lines are repeated in the driver, run itself cannot be called)",
         "browser = net/http/cookiejar without public-suffix list; hosts are names (no IP literals); Domain attributes have at least two labels or equal the host",
